@@ -252,7 +252,7 @@ Section CtxProofs.
   Proof.
     induction ops as [|o t IH]; intros seen a b [Hm Hs] Hg; simpl.
     - split; [reflexivity|tauto].
-    - destruct o as [i v|i]; simpl in Hg |- *.
+    - destruct o as [i v|i|i]; simpl in Hg |- *.
       + rewrite <- (Hm i).
         assert (Hstep : forall p (s : ctx), mem V (do_set V fname p s i v) = upd V (mem V s) i v) by reflexivity.
         destruct (mem V a i) as [old|] eqn:Ea.
@@ -278,6 +278,10 @@ Section CtxProofs.
         destruct (mem V a i) as [v|] eqn:Ea; [|congruence].
         destruct (IH seen a b) as [E N0]; [split; assumption|exact Hg|].
         rewrite E. split; [reflexivity|]. intros [H|H]; [discriminate|rewrite <- E in H; tauto].
+      + (* try_get: memory only *)
+        rewrite <- (Hm i). destruct (IH seen a b) as [E N0]; [split; assumption|exact Hg|].
+        rewrite E. split; [reflexivity|].
+        intros [H|H]; [destruct (mem V a i); discriminate|rewrite <- E in H; tauto].
   Qed.
 
   Theorem persist_transparent (dsk : N -> option V) ops :
